@@ -86,7 +86,7 @@ def gen_c37(d, opts):
         elif st["open"]:
             table = [("get", 6), ("del", 4), ("ctx", 2), ("unload_all", 1), ("contains", 1), ("approx", 3), ("items", 1), ("close", 3), ("abandon", 1)]
         elif st["disk"]:
-            table = [("open_rw", 6), ("open_ro", 3)]
+            table = [("open_rw", 6), ("open_ro", 3), ("plant_sibling", 1)]
         else:
             table = [("create", 1)]
         kind = d.weighted("op", table)
@@ -101,6 +101,9 @@ def gen_c37(d, opts):
         elif kind == "abandon" and st["open"]:
             st["open"] = False
         op = dict(id=i, op=kind)
+        if kind == "plant_sibling":
+            op["how"] = d.pick("plant:how", ["valid", "valid", "garbage"])
+            op["suffix"] = d.pick("plant:suffix", [".tmp", ".tmp", ".bak", ".part"])
         if kind in ("put", "get", "del", "ctx", "contains"):
             op["key"] = hot if d.chance("usehot", hot_p) else d.pick("opkey", pool)
         if kind == "put":
@@ -123,7 +126,33 @@ def gen_c37(d, opts):
             op["atol"] = d.pick("aatol", [None, None, 1e-10, 0.0])
         ops.append(op)
     th, opc = cards.gen_cards(d, real=False, max_targets=2)
-    return dict(config="c37", keys=pool, ops=ops, theory=th, operator=opc)
+    if not opts.get("_inner") and d.chance("second-eko", float(opts.get("second_eko", 0.3))):
+        # interleave the history of a second EKO that uses the SAME evolution points
+        inner = gen_c37(d.fork("second"), dict(opts, _inner=True))
+        a, b = list(ops), []
+        for o in inner["ops"]:
+            o = dict(o)
+            o["slot"] = 1
+            o["id"] = 2000 + o["id"]
+            if "key" in o and o["op"] != "approx":
+                o["key"] = d.pick("second:key", pool)
+            if "val" in o:
+                o["val"] = dict(o["val"], uid=o["val"]["uid"] + 300)
+            b.append(o)
+        merged = []
+        while a or b:
+            take_a = a and (not b or d.chance("second:interleave", len(a) / (len(a) + len(b))))
+            merged.append(a.pop(0) if take_a else b.pop(0))
+        ops = merged
+    relpath = (not opts.get("_inner")) and d.chance("relpath", 0.3)
+    if relpath:
+        out = []
+        for o in ops:
+            out.append(o)
+            if d.chance("chdir", 0.25):
+                out.append(dict(id=3000 + len(out), op="chdir", to=d.pick("chdir:to", ["out", "cwd1", "cwd2/deeper", "."]), slot=o.get("slot", 0)))
+        ops = out
+    return dict(config="c37", keys=pool, ops=ops, theory=th, operator=opc, relpath=relpath)
 
 
 def vary_cards(d, th, opc):
@@ -278,6 +307,9 @@ def gen_c39(d, opts):
     else:
         ops.append(dict(id=i, op="close"))
         i += 1
+        if d.chance("c39:plant", 0.3):
+            ops.append(dict(id=i, op="plant_sibling", how=d.pick("plant:how", ["valid", "valid", "garbage"]), suffix=d.pick("plant:suffix", [".tmp", ".tmp", ".bak"])))
+            i += 1
         ops.append(dict(id=i, op="open_ro"))
         i += 1
         if mode == "closed_ro":
@@ -387,11 +419,12 @@ def _sha(path):
 
 
 class Interp:
-    def __init__(self, case, root, sm):
+    def __init__(self, case, root, sm, name="store"):
         self.case = case
         self.root = root
         self.sm = sm
-        self.path = pathlib.Path(root) / "out" / "store.tar"
+        self.name = name
+        self.path = pathlib.Path(root) / "out" / f"{name}.tar"
         self.model = Model()
         self.eko = None  # live EKO object (possibly closed)
         self.viol = []
@@ -506,8 +539,13 @@ class Interp:
         with self.sm.paused():
             self.sha_at_open = _sha(self.path)
         self.ro_trace_start = self.sm.trace.n
+        arg = self.path
+        if self.case.get("relpath"):
+            # the archive is named relative to the current working directory (which
+            # later "chdir" operations change while the session is open)
+            arg = pathlib.Path(os.path.relpath(self.path, os.getcwd()))
         try:
-            self.eko = EKO.read(self.path) if mode == "ro" else EKO.edit(self.path)
+            self.eko = EKO.read(arg) if mode == "ro" else EKO.edit(arg)
         except Exception as e:
             self.v("reopen-raised", f"re-opening the archive ({mode}) raised {type(e).__name__}: {str(e)[:300]}", op, key=f"reopen-raised:{type(e).__name__}")
             self.eko = None
@@ -527,7 +565,7 @@ class Interp:
 
     def scan_ro_trace(self):
         for ev in self.sm.trace.events[self.ro_trace_start :]:
-            if str(ev[4]).startswith("out/store.tar") and ev[3] in ("open_w", "write", "unlink", "rename", "truncate", "close_w"):
+            if str(ev[4]).startswith(f"out/{self.name}.tar") and ev[3] in ("open_w", "write", "unlink", "rename", "truncate", "close_w"):
                 self.probes["mutating_event_on_archive_in_ro"] += 1
 
     def do_close(self, op):
@@ -552,6 +590,35 @@ class Interp:
             self.scan_ro_trace()
             self.check_archive_unchanged(op, "close of read-only session")
         self.model.sess = None
+        return True
+
+    def do_plant(self, op):
+        """Durable junk left next to the archive by some hard-killed earlier process
+        (nothing cleans up after a SIGKILL): a complete-looking, newer `<archive>.tmp`
+        with other content, a truncated one, or a backup copy.  Not an operation on
+        the EKO: nothing that follows may be influenced by it."""
+        import shutil
+        import tarfile
+
+        if self.session_open() or self.model.disk is None:
+            return False
+        with self.sm.paused():
+            if not self.path.exists():
+                return False
+            sib = self.path.with_name(self.path.name + op.get("suffix", ".tmp"))
+            how = op.get("how", "valid")
+            if how == "garbage":
+                sib.write_bytes(self.path.read_bytes()[: max(1, self.path.stat().st_size // 3)])
+            else:
+                shutil.copyfile(self.path, sib)
+                extra = self.path.with_name("junk-member")
+                extra.write_text("scale: 1.0\nnf: 3\n")
+                with tarfile.open(sib, "a") as tar:
+                    tar.add(extra, arcname="./operators/AAAAAAAAAAA=.yaml")
+                extra.unlink()
+            now = self.path.stat().st_mtime
+            os.utime(sib, (now + 5, now + 5))
+        self.probes["junk_siblings_planted"] = self.probes.get("junk_siblings_planted", 0) + 1
         return True
 
     def do_abandon(self, op):
@@ -652,6 +719,11 @@ class Interp:
             return self.do_close(op)
         if kind == "abandon":
             return self.do_abandon(op)
+        if kind == "plant_sibling":
+            return self.do_plant(op)
+        if kind == "chdir":
+            os.chdir(os.path.join(self.root, op["to"]))
+            return True
         if c39:
             return self.c39_op(op, kind)
         if not self.session_open() or self.eko is None:
@@ -1045,18 +1117,40 @@ def final_audit(it):
 
 def _run_history(case, root, faults=None):
     os.makedirs(os.path.join(root, "out"))
+    os.makedirs(os.path.join(root, "cwd1"))
+    os.makedirs(os.path.join(root, "cwd2", "deeper"))
+    if case.get("relpath"):
+        os.chdir(os.path.join(root, "out"))
     d = Decider(case["seed"], "fs")
     tr = seams.Trace()
     sm = seams.Seams(root, d, trace=tr, plan=seams.FaultPlan(faults or []), trace_reads=bool(case["config"] == "c38h"), cpu_count=4)
     with sm:
         it = Interp(case, root, sm)
         it.faulty = case["config"] == "c38h"
+        # a second, independent EKO (another archive) may be alive at the same time:
+        # operations carrying slot=1 go to it; nothing it does may show in the first
+        other = Interp(case, root, sm, name="other") if any(o.get("slot") for o in case["ops"]) else None
+        if other is not None:
+            other.faulty = it.faulty
         for op in case["ops"]:
-            it.step(op)
-            if it.viol:
+            tgt = other if (op.get("slot") and other is not None) else it
+            tgt.step(op)
+            if it.viol or (other is not None and other.viol):
                 break
-        if not it.viol:
+        if not it.viol and not (other is not None and other.viol):
             final_audit(it)
+            if other is not None and not it.viol:
+                final_audit(other)
+        if other is not None:
+            for v in other.viol:
+                v["msg"] = "[second EKO] " + v["msg"]
+            it.viol += other.viol
+            it.executed += other.executed
+            it.skipped += other.skipped
+            it.mutations += other.mutations
+            it.states |= {"b:" + x for x in other.states}
+            it.obs.update(other.obs.hexdigest().encode())
+            it.probes["second_eko_ops"] = other.executed
     return it, tr, sm
 
 
